@@ -195,6 +195,27 @@ MUT["C19"] = [
 ]
 
 
+MUT["C05"] = [
+    dict(id="c05-median", what="final estimate is the median of the samples", path=P_BADS, functions=[B + ".optimize"],
+         old="                self.fval = np.mean(yval_vec).item()", new="                self.fval = np.median(yval_vec).item()", expect="fval_is_mean"),
+    dict(id="c05-no-abs", what="noise test without the absolute value", path=P_BADS, functions=[B + "._init_mesh_"],
+         old="            if np.abs(self.yval - yval_bis) > self.options[\"tol_noise\"]:", new="            if (self.yval - yval_bis) > self.options[\"tol_noise\"]:", expect="noise_detected_iff"),
+    dict(id="c05-isclose", what="noise test through np.isclose (hidden relative tolerance)", path=P_BADS, functions=[B + "._init_mesh_"],
+         old="            if np.abs(self.yval - yval_bis) > self.options[\"tol_noise\"]:", new="            if not np.isclose(self.yval, yval_bis, atol=self.options[\"tol_noise\"]):", expect="noise_detected_iff"),
+    dict(id="c05-stale-sample", what="yval_vec filled with the old observation instead of the fresh sample", path=P_BADS, functions=[B + ".optimize"],
+         old="                    yval_vec[i_sample] = y\n", new="                    yval_vec[i_sample] = self.yval\n", expect="c05_fresh_samples"),
+    dict(id="c05-wrong-iterate", what="final point taken one iterate off", path=P_BADS, functions=[B + ".optimize"],
+         old="            self.u = self.iteration_history.get(\"u\")[min_q_beta_idx]\n            self.u_best = self.u.copy()", new="            self.u = self.iteration_history.get(\"u\")[min_q_beta_idx - 1]\n            self.u_best = self.u.copy()", expect="returned_x_evaluated_earlier"),
+    dict(id="c05-sem", what="fsd is the standard deviation, not the standard error", path=P_BADS, functions=[B + ".optimize"],
+         old="                self.fsd = (np.std(yval_vec) / np.sqrt(yval_vec.size)).item()", new="                self.fsd = np.std(yval_vec).item()", expect="fval_is_mean"),
+    dict(id="c05-sample-elsewhere", what="final samples taken at a shifted point", path=P_BADS, functions=[B + ".optimize"],
+         old="                    y, y_sd, _ = self.function_logger(\n                        self.u, record_duplicate_data=False\n                    )", new="                    y, y_sd, _ = self.function_logger(\n                        self.u + self.mesh_size, record_duplicate_data=False\n                    )", expect="c05_samples_at_point"),
+    dict(id="c05-no-reserve", what="final-sample reserve not carved out of the budget", path=P_BADS, functions=[B + "._init_optimization_"],
+         old="            self.options[\"max_fun_evals\"] = (\n                self.options[\"max_fun_evals\"]\n                - self.options[\"noise_final_samples\"]\n            )",
+         new="            pass", expect="reserve"),
+]
+
+
 def scan_c19(index, registry):
     return scans.deepcopy_on_store(index, registry)
 
@@ -287,6 +308,16 @@ PROPS = {
                     "evaluation with the recorded value (ghost witness index chosen from the incumbent invariant), recorded x == inverse_transf(recorded u), recorded func_count "
                     "non-decreasing and <= the final count, returned x is a recorded iterate (the last one, same value, for deterministic targets; the selected one for noisy targets); "
                     "OptimizeResult.set_attributes field equalities; unknown result keys rejected; structural deep-copy obligations. Container histories: bounded reference model.",
+    ),
+    "C05": dict(
+        level="proof",
+        native=[panel('C05', 8, 40, kinds="auto_noise,declared_noise,specified_noise")], replay=replay('C05', 40),
+        functions=[FL + ".__call__", B + "._init_mesh_", B + "._init_optimization_", B + "._re_evaluate_history_", B + "._search_step_", B + "._poll_step_", B + ".optimize",
+                   OR + ".set_attributes"],
+        mutants=MUT["C05"],
+        explanation="Ghost sequences RetVal(k), RetSD(k), ArgPt(k) of the k-th target call (defined at the single call site). Noise test: level becomes >= 1 iff |RetVal(n+1)-RetVal(n+2)| > tol_noise, "
+                    "both calls at the same point. Tail: the last noise_final_samples calls are at inverse_transf(u) = returned x, yval_vec[k] = RetVal of those calls (plus the recorded observation of the "
+                    "selected iterate when only one sample), fval = mean(yval_vec), fsd = std/sqrt(size) (uninterpreted mean/std), ysd_vec = RetSD, returned x is a recorded (earlier evaluated) iterate; budget reserve.",
     ),
     "C04": dict(
         level="proof",
